@@ -235,6 +235,23 @@ def check_laws(ctx, name, sr, grid, dtype):
                     ctx.fail(f'{name}: star({x}) = {sx} is not the least solution of y = 1 + x*y ({y} is smaller)',
                              dict(semiring=name, law='star_least', x=repr(x), y=repr(y)), sx, y,
                              tags=['star-least', name, f'x={x!r}'])
+    # sum over a dimension with 0, 1, 3 elements is the fold of add from the additive identity (the sum over NOTHING is zero)
+    for n in (0, 0, 1, 3, 3):
+        vals = [ctx.rng.choice(grid) for _ in range(n)]
+        st = torch.stack([T(v) for v in vals]).reshape(1, n) if n else torch.zeros((1, 0), dtype=zero.dtype)
+        dim = ctx.rng.choice([1, -1])
+        try:
+            got = sr.sum(st, dim=dim)[0]
+        except Exception as ex:  # noqa
+            ctx.evaluations += 1
+            ctx.fail(f'{name}: sum over a dimension with {n} elements raised {type(ex).__name__}: {str(ex)[:80]}',
+                     dict(semiring=name, law='sum_fold', values=[repr(v) for v in vals], dim=dim, dtype=str(st.dtype)), repr(ex), None,
+                     tags=['sum-raises', name, f'n={n}'])
+            continue
+        want = zero.clone()
+        for v in vals:
+            want = sr.add(want, T(v))
+        law('sum_fold', got, want, tuple(vals), name != 'log')
     pairs = list(itertools.product(grid, repeat=2))
     for x, y in pairs:
         tx, ty = T(x), T(y)
